@@ -49,23 +49,104 @@ theorem mapM_of_all₂_map {α β} (build : T → PM β) (d : α → β) {xs : L
   | nil => rfl
   | cons h _ ih => simp [List.mapM_cons, h, ih, bind, Except.bind, pure, Except.pure]
 
-theorem followWd_not_s {rest : List Char} (hf : FollowWd rest) : ∀ r, rest ≠ 's' :: r := by
+/-! ### what may follow
+
+The follow predicates of the canonical printer (`FollowWd` after one element, `FollowWdSel` after the
+selector) know the end, `,` and a space.  In a sentence a rule separator may follow WITHOUT a space
+(`Mo;Tu`, `Mo|| Tu`), so they are weakened by one more case. -/
+
+/-- a next character with which nothing of a weekday selector can continue: not `,` and not a space
+(those are the cases of `FollowWd`/`FollowWdSel`), not `s` (`day` would be read as `days`), not `[`
+and not `-` (a single day would be read as a bracket form or a span).  Holds for `;` and `|`. -/
+def OtherFollow (rest : List Char) : Prop :=
+  ∃ c r, rest = c :: r ∧ c ≠ ',' ∧ c ≠ ' ' ∧ c ≠ 's' ∧ c ≠ '[' ∧ c ≠ '-'
+
+/-- after ONE weekday range or holiday -/
+def FollowWdX (rest : List Char) : Prop := FollowWd rest ∨ OtherFollow rest
+
+/-- after the whole weekday selector -/
+def FollowWdSelX (rest : List Char) : Prop := FollowWdSel rest ∨ OtherFollow rest
+
+theorem FollowWdSelX.toWdX {rest : List Char} (h : FollowWdSelX rest) : FollowWdX rest :=
+  h.imp FollowWdSel.toWd id
+
+theorem FollowWdSelX.of_sel {rest : List Char} (h : FollowWdSel rest) : FollowWdSelX rest := .inl h
+
+/-- the standard context of the canonical printer (end, `, `, space + modifier / separator / time) -/
+theorem FollowWdSelX.of_weekday {rest : List Char} (h : FollowWeekday rest) : FollowWdSelX rest :=
+  .inl h.toWdSel
+
+/-- a rule separator written without a space -/
+theorem FollowWdSelX.semi (r : List Char) : FollowWdSelX (';' :: r) :=
+  .inr ⟨';', r, rfl, by decide, by decide, by decide, by decide, by decide⟩
+
+theorem FollowWdSelX.bar (r : List Char) : FollowWdSelX ('|' :: r) :=
+  .inr ⟨'|', r, rfl, by decide, by decide, by decide, by decide, by decide⟩
+
+theorem followWdX_comma (r : List Char) : FollowWdX (',' :: r) := .inl (FollowWd.comma r)
+
+theorem followWdX_not_s {rest : List Char} (hf : FollowWdX rest) : ∀ r, rest ≠ 's' :: r := by
   intro r h
-  rcases hf with rfl | ⟨r', rfl⟩ | ⟨c, r', rfl, _⟩ <;> simp at h
+  rcases hf with (rfl | ⟨r', rfl⟩ | ⟨c, r', rfl, _⟩) | ⟨c, r', rfl, _, _, hs, _⟩
+  · simp at h
+  · simp at h
+  · simp at h
+  · exact hs (List.cons.inj h).1
+
+theorem run_day_offset_none_x (rest : List Char) (hf : FollowWdX rest) :
+    run g_day_offset false rest = none := by
+  rcases hf with hf | ⟨c, r, rfl, _, h2, _⟩
+  · exact run_day_offset_none rest hf
+  · simp [g_day_offset, g_space, peg, Ne.symm h2]
+
+theorem stop_holiday_x (rest : List Char) (h : FollowWdSelX rest) :
+    run (.seq (.str [',']) g_holiday) false rest = none := by
+  rcases h with h | ⟨c, r, rfl, h1, _⟩
+  · exact stop_holiday rest h
+  · simp [peg, Ne.symm h1]
+
+theorem stop_weekday_range_x (rest : List Char) (h : FollowWdSelX rest) :
+    run (.seq (.str [',']) g_weekday_range) false rest = none := by
+  rcases h with h | ⟨c, r, rfl, h1, _⟩
+  · exact stop_weekday_range rest h
+  · simp [peg, Ne.symm h1]
+
+theorem stop_holiday_sequence_x (rest : List Char) (h : FollowWdSelX rest) :
+    run (.seq (.alt (.str [',']) g_space) g_holiday_sequence) false rest = none := by
+  rcases h with h | ⟨c, r, rfl, h1, h2, _⟩
+  · exact stop_holiday_sequence rest h
+  · simp [peg, g_space, Ne.symm h1, Ne.symm h2]
+
+theorem stop_weekday_sequence_x (rest : List Char) (h : FollowWdSelX rest) :
+    run (.seq (.alt (.str [',']) g_space) g_weekday_sequence) false rest = none := by
+  rcases h with h | ⟨c, r, rfl, h1, h2, _⟩
+  · exact stop_weekday_sequence rest h
+  · simp [peg, g_space, Ne.symm h1, Ne.symm h2]
+
+/-- a single day, nothing else (third alternative of `weekday_range`) -/
+theorem parses_wdr_single_x (lo : Nat) (hlo : lo ≤ 6) (rest : List Char) (hf : FollowWdX rest) :
+    ParsesTo g_weekday_range buildWeekdayRange (Print.wdayStr lo) rest
+      (.fixed lo lo 0 allTrue5 allTrue5) := by
+  rcases hf with hf | ⟨c, r, rfl, _, _, _, h4, h5⟩
+  · exact parses_wdr_single lo hlo rest hf
+  · refine ParsesTo.mk' .weekday_range [wdayTree lo] ?_ ?_
+    · simp [g_weekday_range, peg, run_wday lo hlo, Ne.symm h4, Ne.symm h5]
+    · simp [buildWeekdayRange, assertRule, tree_rule, tree_kids, build_wday lo hlo, nthLoop,
+        allFalse5, bind, Except.bind]
 
 /-! ### the optional day offset -/
 
 theorem run_opt_dayoff (off : Option DayOff) (hwf : optOffWf off = true) (rest : List Char)
-    (hf : FollowWd rest) :
+    (hf : FollowWdX rest) :
     ∃ ts, run (.opt g_day_offset) false ((optOff off).1 ++ rest) = some ⟨ts, (optOff off).1, rest⟩
       ∧ ((off = none ∧ ts = []) ∨
           ∃ t, ts = [t] ∧ t.rule = .day_offset ∧ buildDayOffset t = .ok (optOff off).2) := by
   cases off with
   | none =>
     refine ⟨[], ?_, .inl ⟨rfl, rfl⟩⟩
-    simp [optOff, peg, run_day_offset_none rest hf]
+    simp [optOff, peg, run_day_offset_none_x rest hf]
   | some o =>
-    obtain ⟨t, ht, hbuild⟩ := parses_dayoff o hwf rest (followWd_not_s hf)
+    obtain ⟨t, ht, hbuild⟩ := parses_dayoff o hwf rest (followWdX_not_s hf)
     exact ⟨[t], by simp [optOff, peg, ht], .inr ⟨t, rfl, parses_dayoff_rule hbuild, hbuild⟩⟩
 
 /-! ### position entries: strings and pairs -/
@@ -270,7 +351,7 @@ theorem nthArrays_some (e : NthEntry) (es : List NthEntry) (h : e.wf = true) :
 /-- `wday[…] day_offset?` -/
 theorem parses_wdr_nth (a : Nat) (ha : a ≤ 6) (x : NthEntry) (xs : List NthEntry)
     (hv : ∀ e ∈ x :: xs, e.wf = true) (off : Option DayOff) (hoff : optOffWf off = true)
-    (rest : List Char) (hf : FollowWd rest) :
+    (rest : List Char) (hf : FollowWdX rest) :
     ParsesTo g_weekday_range buildWeekdayRange (WdRange.nth a (x :: xs) off).render rest
       (WdRange.nth a (x :: xs) off).denote := by
   obtain ⟨ts, hts, hcase⟩ := run_opt_dayoff off hoff rest hf
@@ -304,13 +385,13 @@ theorem parses_wdr_nth (a : Nat) (ha : a ≤ 6) (x : NthEntry) (xs : List NthEnt
       simp [buildWeekdayRange, assertRule, tree_rule, tree_kids, build_wday a ha, sEntryTree_rule,
         hl, hcond', hbuild, WdRange.denote, bind, Except.bind]
 
-theorem parses_wdrange (w : WdRange) (h : w.wf = true) (rest : List Char) (hf : FollowWd rest) :
+theorem parses_wdrange (w : WdRange) (h : w.wf = true) (rest : List Char) (hf : FollowWdX rest) :
     ParsesTo g_weekday_range buildWeekdayRange w.render rest w.denote := by
   cases w with
   | single a =>
     have ha : a ≤ 6 := by simpa [WdRange.wf] using h
     simpa [WdRange.render, WdRange.denote, wdayName_eq, allTrue_eq] using
-      parses_wdr_single a ha rest hf
+      parses_wdr_single_x a ha rest hf
   | span a b =>
     have hab : a ≤ 6 ∧ b ≤ 6 := by simpa [WdRange.wf] using h
     simpa [WdRange.render, WdRange.denote, wdayName_eq, allTrue_eq] using
@@ -336,7 +417,7 @@ theorem wdrange_head (w : WdRange) (h : w.wf = true) :
 
 /-! ### `holiday` -/
 
-theorem parses_hol (x : Hol) (h : x.wf = true) (rest : List Char) (hf : FollowWd rest) :
+theorem parses_hol (x : Hol) (h : x.wf = true) (rest : List Char) (hf : FollowWdX rest) :
     ParsesTo g_holiday buildHoliday x.render rest x.denote := by
   cases x with
   | pub off =>
@@ -362,28 +443,28 @@ abbrev holsStr (hs : List Hol) : List Char := commaList Hol.render hs
 abbrev daysStr (ws : List WdRange) : List Char := commaList WdRange.render ws
 
 theorem parses_hol_seq (x : Hol) (xs : List Hol) (h : ∀ y ∈ x :: xs, y.wf = true)
-    (rest : List Char) (hf : FollowWd rest)
+    (rest : List Char) (hf : FollowWdX rest)
     (hstop : run (.seq (.str [',']) g_holiday) false rest = none) :
     ∃ ts, run g_holiday_sequence false (holsStr (x :: xs) ++ rest)
         = some ⟨[.node .holiday_sequence (holsStr (x :: xs)) ts], holsStr (x :: xs), rest⟩
       ∧ ts.mapM buildHoliday = .ok ((x :: xs).map Hol.denote) := by
   obtain ⟨ts, hts, hrel⟩ := run_comma_list g_holiday Hol.render
-    (fun w t => buildHoliday t = .ok w.denote) (fun w => w.wf = true) FollowWd
+    (fun w t => buildHoliday t = .ok w.denote) (fun w => w.wf = true) FollowWdX
     (fun w rest hw hr => parses_hol w hw rest hr)
-    FollowWd.comma x xs h rest hf hstop
+    followWdX_comma x xs h rest hf hstop
   rw [← commaList_eq] at hts
   exact ⟨ts, by simp [g_holiday_sequence, run_rule, hts], mapM_of_all₂_map buildHoliday _ hrel⟩
 
 theorem parses_days_seq (x : WdRange) (xs : List WdRange) (h : ∀ y ∈ x :: xs, y.wf = true)
-    (rest : List Char) (hf : FollowWd rest)
+    (rest : List Char) (hf : FollowWdX rest)
     (hstop : run (.seq (.str [',']) g_weekday_range) false rest = none) :
     ∃ ts, run g_weekday_sequence false (daysStr (x :: xs) ++ rest)
         = some ⟨[.node .weekday_sequence (daysStr (x :: xs)) ts], daysStr (x :: xs), rest⟩
       ∧ ts.mapM buildWeekdayRange = .ok ((x :: xs).map WdRange.denote) := by
   obtain ⟨ts, hts, hrel⟩ := run_comma_list g_weekday_range WdRange.render
-    (fun w t => buildWeekdayRange t = .ok w.denote) (fun w => w.wf = true) FollowWd
+    (fun w t => buildWeekdayRange t = .ok w.denote) (fun w => w.wf = true) FollowWdX
     (fun w rest hw hr => parses_wdrange w hw rest hr)
-    FollowWd.comma x xs h rest hf hstop
+    followWdX_comma x xs h rest hf hstop
   rw [← commaList_eq] at hts
   exact ⟨ts, by simp [g_weekday_sequence, run_rule, hts], mapM_of_all₂_map buildWeekdayRange _ hrel⟩
 
@@ -422,47 +503,47 @@ abbrev joinChar (s : Bool) : Char := if s then ' ' else ','
 
 /-- a list of weekday ranges may follow a holiday (after `,` or a space) -/
 theorem followWd_join_days (s : Bool) (x : WdRange) (xs : List WdRange) (h : x.wf = true)
-    (r : List Char) : FollowWd (joinChar s :: (daysStr (x :: xs) ++ r)) := by
+    (r : List Char) : FollowWdX (joinChar s :: (daysStr (x :: xs) ++ r)) := by
   cases s with
-  | false => exact FollowWd.comma _
+  | false => exact followWdX_comma _
   | true =>
     obtain ⟨a, tl, ha, e⟩ := daysStr_head x xs h
     obtain ⟨c, d, e2, _, h1, h2⟩ := wdayStr_head a ha
-    exact .inr (.inr ⟨c, d :: (tl ++ r), by rw [e, e2]; rfl, h1, h2⟩)
+    exact .inl (.inr (.inr ⟨c, d :: (tl ++ r), by rw [e, e2]; rfl, h1, h2⟩))
 
 /-- a list of holidays may follow a weekday range (after `,` or a space) -/
 theorem followWd_join_hols (s : Bool) (x : Hol) (xs : List Hol) (r : List Char) :
-    FollowWd (joinChar s :: (holsStr (x :: xs) ++ r)) := by
+    FollowWdX (joinChar s :: (holsStr (x :: xs) ++ r)) := by
   cases s with
-  | false => exact FollowWd.comma _
+  | false => exact followWdX_comma _
   | true =>
     obtain ⟨c, tl, e, hc⟩ := holsStr_head x xs
-    refine .inr (.inr ⟨c, 'H' :: (tl ++ r), by rw [e]; rfl, ?_⟩)
+    refine .inl (.inr (.inr ⟨c, 'H' :: (tl ++ r), by rw [e]; rfl, ?_⟩))
     rcases hc with rfl | rfl <;> decide
 
 /-! ### the selector -/
 
 theorem wdsel_hols (h : Hol) (hs : List Hol) (hh : ∀ y ∈ h :: hs, y.wf = true) (rest : List Char)
-    (hf : FollowWdSel rest) :
+    (hf : FollowWdSelX rest) :
     ParsesTo g_weekday_selector buildWeekdaySelector (holsStr (h :: hs)) rest
       ((h :: hs).map Hol.denote) := by
-  obtain ⟨ts, hts, hb⟩ := parses_hol_seq h hs hh rest hf.toWd (stop_holiday rest hf)
+  obtain ⟨ts, hts, hb⟩ := parses_hol_seq h hs hh rest hf.toWdX (stop_holiday_x rest hf)
   refine ParsesTo.mk' .weekday_selector [.node .holiday_sequence (holsStr (h :: hs)) ts] ?_ ?_
   · simp [g_weekday_selector, run_rule, run_seq, run_alt, run_opt, R.append, R.nil, hts,
-      stop_weekday_sequence rest hf]
+      stop_weekday_sequence_x rest hf]
   · simp only [List.map_cons] at hb
     simp [buildWeekdaySelector, assertRule, tree_rule, tree_kids, List.mapM_cons, hb, bind,
       Except.bind, pure, Except.pure]
 
 theorem wdsel_days (f : WdRange) (fs : List WdRange) (hfs : ∀ y ∈ f :: fs, y.wf = true)
-    (rest : List Char) (hf : FollowWdSel rest) :
+    (rest : List Char) (hf : FollowWdSelX rest) :
     ParsesTo g_weekday_selector buildWeekdaySelector (daysStr (f :: fs)) rest
       ((f :: fs).map WdRange.denote) := by
   have hf0 := hfs f (by simp)
-  obtain ⟨ts, hts, hb⟩ := parses_days_seq f fs hfs rest hf.toWd (stop_weekday_range rest hf)
+  obtain ⟨ts, hts, hb⟩ := parses_days_seq f fs hfs rest hf.toWdX (stop_weekday_range_x rest hf)
   refine ParsesTo.mk' .weekday_selector [.node .weekday_sequence (daysStr (f :: fs)) ts] ?_ ?_
   · simp [g_weekday_selector, run_rule, run_seq, run_alt, run_opt, R.append, R.nil, hts,
-      stop_holiday_sequence rest hf, run_holiday_sequence_days f fs hf0 rest]
+      stop_holiday_sequence_x rest hf, run_holiday_sequence_days f fs hf0 rest]
   · simp only [List.map_cons] at hb
     simp [buildWeekdaySelector, assertRule, tree_rule, tree_kids, List.mapM_cons, hb, bind,
       Except.bind, pure, Except.pure]
@@ -470,7 +551,7 @@ theorem wdsel_days (f : WdRange) (fs : List WdRange) (hfs : ∀ y ∈ f :: fs, y
 /-- holidays first: `holiday_sequence ~ (("," | " ") ~ weekday_sequence)?` -/
 theorem wdsel_hols_days (h : Hol) (hs : List Hol) (s : Bool) (f : WdRange) (fs : List WdRange)
     (hh : ∀ y ∈ h :: hs, y.wf = true) (hfs : ∀ y ∈ f :: fs, y.wf = true) (rest : List Char)
-    (hf : FollowWdSel rest) :
+    (hf : FollowWdSelX rest) :
     ParsesTo g_weekday_selector buildWeekdaySelector
       (holsStr (h :: hs) ++ joinChar s :: daysStr (f :: fs)) rest
       ((h :: hs).map Hol.denote ++ (f :: fs).map WdRange.denote) := by
@@ -482,7 +563,7 @@ theorem wdsel_hols_days (h : Hol) (hs : List Hol) (s : Bool) (f : WdRange) (fs :
     | true => simp [peg]
   obtain ⟨ts, hts, hb⟩ := parses_hol_seq h hs hh (joinChar s :: (daysStr (f :: fs) ++ rest))
     (followWd_join_days s f fs hf0 rest) hstop
-  obtain ⟨ts2, hts2, hb2⟩ := parses_days_seq f fs hfs rest hf.toWd (stop_weekday_range rest hf)
+  obtain ⟨ts2, hts2, hb2⟩ := parses_days_seq f fs hfs rest hf.toWdX (stop_weekday_range_x rest hf)
   refine ParsesTo.mk' .weekday_selector [.node .holiday_sequence (holsStr (h :: hs)) ts,
     .node .weekday_sequence (daysStr (f :: fs)) ts2] ?_ ?_
   · simp only [List.append_assoc, List.cons_append]
@@ -502,7 +583,7 @@ theorem wdsel_hols_days (h : Hol) (hs : List Hol) (s : Bool) (f : WdRange) (fs :
 /-- weekday ranges first: `weekday_sequence ~ (("," | " ") ~ holiday_sequence)?` -/
 theorem wdsel_days_hols (f : WdRange) (fs : List WdRange) (s : Bool) (h : Hol) (hs : List Hol)
     (hfs : ∀ y ∈ f :: fs, y.wf = true) (hh : ∀ y ∈ h :: hs, y.wf = true) (rest : List Char)
-    (hf : FollowWdSel rest) :
+    (hf : FollowWdSelX rest) :
     ParsesTo g_weekday_selector buildWeekdaySelector
       (daysStr (f :: fs) ++ joinChar s :: holsStr (h :: hs)) rest
       ((f :: fs).map WdRange.denote ++ (h :: hs).map Hol.denote) := by
@@ -514,7 +595,7 @@ theorem wdsel_days_hols (f : WdRange) (fs : List WdRange) (s : Bool) (h : Hol) (
     | true => simp [peg]
   obtain ⟨ts, hts, hb⟩ := parses_days_seq f fs hfs (joinChar s :: (holsStr (h :: hs) ++ rest))
     (followWd_join_hols s h hs rest) hstop
-  obtain ⟨ts2, hts2, hb2⟩ := parses_hol_seq h hs hh rest hf.toWd (stop_holiday rest hf)
+  obtain ⟨ts2, hts2, hb2⟩ := parses_hol_seq h hs hh rest hf.toWdX (stop_holiday_x rest hf)
   have hfail := run_holiday_sequence_days f fs hf0 (joinChar s :: (holsStr (h :: hs) ++ rest))
   refine ParsesTo.mk' .weekday_selector [.node .weekday_sequence (daysStr (f :: fs)) ts,
     .node .holiday_sequence (holsStr (h :: hs)) ts2] ?_ ?_
@@ -537,8 +618,8 @@ theorem ne_nil_of_not_isEmpty {α} {l : List α} (h : (!l.isEmpty) = true) : ∃
   | nil => simp at h
   | cons x xs => exact ⟨x, xs, rfl⟩
 
-/-- THE WEEKDAY SELECTOR OF A SENTENCE PARSES TO ITS DENOTATION -/
-theorem parses_wdsel (w : WdSel) (h : w.wf = true) (rest : List Char) (hf : FollowWdSel rest) :
+/-- THE WEEKDAY SELECTOR OF A SENTENCE PARSES TO ITS DENOTATION (weakest follow condition) -/
+theorem parses_wdsel_x (w : WdSel) (h : w.wf = true) (rest : List Char) (hf : FollowWdSelX rest) :
     ParsesTo g_weekday_selector buildWeekdaySelector w.render rest w.denote := by
   cases w with
   | days ws =>
@@ -561,6 +642,12 @@ theorem parses_wdsel (w : WdSel) (h : w.wf = true) (rest : List Char) (hf : Foll
     obtain ⟨f, fs, rfl⟩ := ne_nil_of_not_isEmpty h1
     obtain ⟨x, xs, rfl⟩ := ne_nil_of_not_isEmpty h3
     simpa [WdSel.render, WdSel.denote] using wdsel_days_hols f fs s x xs h2 h4 rest hf
+
+/-- THE WEEKDAY SELECTOR OF A SENTENCE PARSES TO ITS DENOTATION, with the follow condition of the
+canonical printer -/
+theorem parses_wdsel (w : WdSel) (h : w.wf = true) (rest : List Char) (hf : FollowWdSel rest) :
+    ParsesTo g_weekday_selector buildWeekdaySelector w.render rest w.denote :=
+  parses_wdsel_x w h rest (.inl hf)
 
 /-- a weekday selector starts with the first letter of a weekday or of a holiday -/
 theorem wdsel_head (w : WdSel) (h : w.wf = true) : ∃ c cs, w.render = c :: cs ∧ WeekdayStart c := by
